@@ -1,4 +1,5 @@
 import PikoModel.Data.AMap
+import PikoModel.Generated.Facts
 /-!
 # Model of `pkg/gossip/failuredetector.go`
 
@@ -148,8 +149,9 @@ def Detector.suspicionLevelAt (d : Detector) (id : String) (t : Nat) : Detector 
 def Detector.remove (d : Detector) (id : String) : Detector :=
   { d with windows := d.windows.erase id }
 
-/-- `suspicionThreshold` of `pkg/gossip/gossip.go` (tied to the source by `C12_facts_threshold`) -/
-def suspicionThreshold : Nat := 20
+/-- `suspicionThreshold` of `pkg/gossip/gossip.go`: the constant of the **current** source as the fact
+extractor reads it (20 on the pinned tree; `C12_facts_threshold` fails when it could not be read) -/
+def suspicionThreshold : Nat := Facts.suspicionThreshold.getD 20
 
 /-! ## Histories -/
 
